@@ -110,6 +110,27 @@ def gen_runs(rng, n, big):
     return out
 
 
+def gen_search(rng, n):
+    """whole searches (tune_parameters + several evolutions) through ga_search / de_search"""
+    out = []
+    for i in range(n):
+        ind = "ga" if i % 2 == 0 else "de"
+        individuals = rng.choice([6, 8, 10, 12, 25])
+        tour = rng.choice([2, 3, min(5, individuals)])
+        p = {"strat": "std" if ind == "ga" else "de", "T": ind, "seed": rng.below(1 << 30),
+             "individuals": individuals, "generations": rng.choice([1, 2, 4]), "runs": rng.choice([1, 2, 3]),
+             "tournament": tour, "mate_zone": rng.choice([tour, individuals, 20]),
+             "elitism": rng.choice([1, 1, 0]), "brood": rng.choice([1, 2]),
+             "p_cross": rng.choice([0.3, 0.9, 1.0]), "p_mutation": rng.choice([0.04, 0.3]),
+             "cache": rng.choice([0, 8]), "fitk": rng.choice([1, 5, 50]),
+             "open_tournament": rng.choice([0, 1]), "open_mate_zone": rng.choice([0, 1]),
+             "open_elitism": rng.choice([0, 1]), "open_rates": rng.choice([0, 1]), "open_brood": rng.choice([0, 1])}
+        if p["open_tournament"] and not p["open_mate_zone"]:
+            p["mate_zone"] = max(p["mate_zone"], 5)     # the default tournament_size is 5
+        out.append(fmt("search", p))
+    return out
+
+
 UNDEF_P = dbits(-1.0)
 
 
@@ -260,7 +281,7 @@ def run(chk, replay=None):
     C.build_vita("asan")
     with cf.ThreadPoolExecutor(2) as ex:          # the two translation units compile in parallel
         exes = list(ex.map(lambda n: C.build_harness(n, "asan"), [HARNESS_RUN, HARNESS_TUNE]))
-    exe_for = lambda case: exes[0] if case.split()[0] in ("comp", "run") else exes[1]
+    exe_for = lambda case: exes[0] if case.split()[0] in ("comp", "run", "search") else exes[1]
 
     # ---- cases -----------------------------------------------------------
     cases = []
@@ -279,6 +300,7 @@ def run(chk, replay=None):
         cases += gen_tune(rng, 1500 if not thorough else 20000)
         cases += gen_comp(rng, 300 if not thorough else 3000, 100 if not thorough else 200)
         cases += gen_runs(rng, 420 if not thorough else 4200, thorough)
+        cases += gen_search(rng, 40 if not thorough else 400)
 
     # ---- harness (sharded) + driver ----------------------------------------
     # shards: interleaved so that each gets a similar mix; one harness binary per shard
@@ -326,7 +348,7 @@ def run(chk, replay=None):
             if ci not in seen_case:
                 seen_case.add(ci)
                 chk.count("case:" + kind)
-                if kind in ("run", "comp"):
+                if kind in ("run", "comp", "search"):
                     kv = dict(x.split("=", 1) for x in case.split()[1:])
                     chk.count(f"{kind}:{kv['strat']}/{kv['T']}")
                     chk.count(f"{kind}:cache={'on' if kv['cache'] != '0' else 'off'}")
